@@ -833,7 +833,8 @@ impl HelperAttributesForCompareOp {
     }
     pub fn push_bounds(&self, op: CompareOp, wcb: &mut WhereClauseBuilder) -> bool {
         let mut use_bounds = true;
-        for &source in CompareOp::VARIANTS {
+        // More specific helper attributes take priority (the same order as for fields).
+        for &source in CompareOp::VARIANTS.iter().rev() {
             if source.is_effects_to(op) && use_bounds {
                 use_bounds = wcb.push_bounds(&self.get(source).bounds);
             }
